@@ -68,7 +68,7 @@ Proof. intros f tb [<-|[<-|[]]] Htb r Hnin; inversion Htb; subst; clear Htb;
 (* all hypotheses of C15_integrate_value hold for the MP2-energy term (no targets):
    its spin-orbital value is the sum of the six spin-labelled terms *)
 Example ex_integrate_value : forall r : env,
-  exists R, integrate_objs true [] (objs_of (tbl_of []) (tfacs mp2)) (atoms_idx (term_atoms mp2)) = Ok R /\
+  exists R, integrate_objs [] (objs_of (tbl_of []) (tfacs mp2)) (atoms_idx (term_atoms mp2)) = Ok R /\
     List.length R = 6%nat /\
     eval_term QcS15 T15 [] r mp2 =
     ksum R (fun m => eval_term QcS15 T15 (map (lab m) []) (fun y => r (unspin y)) (ren_term (lab m) mp2)).
